@@ -5,7 +5,7 @@
                   (C20.f: a request carrying a reserved parameter never reaches a store).
 * Freshness    -- which mutation sites of a function (and of the local helpers /
                   closures it calls) act on a container created in that very call (C20.h).
-* pair_emissions -- where Link.__str__ renders one (key, value) pair and under which
+* PairRendering -- where Link.__str__ renders one (key, value) pair and under which
                   conditions the value-less form is chosen (C20.i).
 * unused_member -- is a returned value known not to be a key of a table (C20.c).
 
@@ -1168,176 +1168,582 @@ class Freshness:
 # C20.i: how one (key, value) pair of a link is rendered
 
 
-def _parents(root):
-    par = {}
-    for p in ast.walk(root):
-        for c in ast.iter_child_nodes(p):
-            par[id(c)] = p
-    return par
+class PairCtx:
+    """One place where the key and the value of one element of self.attr_pairs are bound:
+    scope (FuncInfo or None for a lambda), the names of the key / the value / the whole pair (each may be
+    None), the region in which the pair is rendered (`stmts`: a statement list, else a list of
+    expressions) and the conditions [(expr, True)] that hold for the whole region (comprehension filters)."""
+    __slots__ = ("scope", "k", "v", "pair", "roots", "base", "stmts")
+
+    def __init__(self, scope, k, v, pair, roots, base, stmts):
+        self.scope, self.k, self.v, self.pair, self.roots, self.base, self.stmts = scope, k, v, pair, roots, base, stmts
+
+    def _idx(self, e):
+        if self.pair is not None and isinstance(e, ast.Subscript) and isinstance(e.value, ast.Name) and e.value.id == self.pair \
+                and isinstance(e.slice, ast.Constant) and isinstance(e.slice.value, int):
+            return e.slice.value
+        return None
+
+    def is_key(self, e):
+        return (isinstance(e, ast.Name) and self.k is not None and e.id == self.k) or self._idx(e) in (0, -2)
+
+    def is_val(self, e):
+        return (isinstance(e, ast.Name) and self.v is not None and e.id == self.v) or self._idx(e) in (1, -1)
+
+    def is_pair(self, e):
+        return isinstance(e, ast.Name) and self.pair is not None and e.id == self.pair
 
 
-def _is_pairs_source(fi, e, attr):
-    if isinstance(e, ast.Name) and not isinstance(fi.node, ast.Lambda):
+_PAIR_WRAPPERS = ("list", "tuple", "iter", "sorted", "reversed")
+
+
+def _is_pairs_source(fi, e, sources):
+    if isinstance(e, ast.Name) and e.id not in sources and not isinstance(fi.node, ast.Lambda):
         e = resolve_local(fi.node, e)
-    if isinstance(e, ast.Call) and chain(e.func) in ("list", "tuple", "iter", "sorted", "reversed") and len(e.args) == 1:
-        return _is_pairs_source(fi, e.args[0], attr)
-    return chain(e) == "self." + attr
+    if isinstance(e, ast.Call) and chain(e.func) in _PAIR_WRAPPERS and len(e.args) == 1:
+        return _is_pairs_source(fi, e.args[0], sources)
+    return chain(e) in sources
+
+
+def _unpack_of(roots, name):
+    """(k, v) when the region unpacks local `name` into two names: `k, v = name`."""
+    for root in roots:
+        for s in ast.walk(root):
+            if isinstance(s, ast.Assign) and len(s.targets) == 1 and isinstance(s.targets[0], (ast.Tuple, ast.List)) and len(s.targets[0].elts) == 2 \
+                    and all(isinstance(x, ast.Name) for x in s.targets[0].elts) and isinstance(s.value, ast.Name) and s.value.id == name:
+                return s.targets[0].elts[0].id, s.targets[0].elts[1].id
+    return None, None
 
 
 def pair_contexts(prog, outer, attr="attr_pairs"):
-    """Places of `outer` (and of its closures) where two names are bound to the key and the value of one
-    element of self.<attr>: [(scope FuncInfo or None, key name, value name, [roots in which the pair is rendered], [(filter, True)] conditions that hold there)].
-    Binding forms: `for k, v in self.attr_pairs` (statement or comprehension), `for p in ...: k, v = p`,
-    a closure / lambda f called as f(k, v) or f(*p) inside such a region, itertools.starmap(f, self.attr_pairs)."""
+    """Places of `outer`, of its closures and of the functions of its module it hands `self` or the pair list
+    to, where the key and the value of one element of self.<attr> are bound -> [PairCtx].
+    Binding forms: `for k, v in PAIRS` / `for p in PAIRS` (statement or comprehension; `k, v = p` or
+    `p[0]`, `p[1]` inside), a callable f (closure, lambda, method, module function, functools.partial of one)
+    called as f(k, v) / f(*p) / f(p) / f(p[0], p[1]) inside such a region, `itertools.starmap(f, PAIRS)`,
+    `map(f, PAIRS)`.  PAIRS is `self.<attr>`, possibly through list()/tuple()/iter()/sorted()/reversed(), a
+    single-assignment local, or a parameter that received it."""
     ctxs = []
+    done = set()
 
-    def callable_ctx(fi, f):
-        tgt = None
+    def add(scope, k, v, pair, roots, base, stmts):
+        ctxs.append(PairCtx(scope, k, v, pair, roots, base, stmts))
+
+    def callable_ctx(fi, f, npos):
+        """f is called with the key and the value (npos == 2) or with the whole pair (npos == 1)."""
+        if isinstance(f, ast.Name) and not isinstance(fi.node, ast.Lambda):
+            r = resolve_local(fi.node, f)
+            if r is not f and isinstance(r, ast.Lambda):
+                f = r
         if isinstance(f, ast.Lambda):
             a = f.args
             ps = [x.arg for x in a.posonlyargs + a.args]
-            if len(ps) == 2:
-                ctxs.append((None, ps[0], ps[1], [f.body], []))
+            if len(ps) == npos == 2:
+                add(None, ps[0], ps[1], None, [f.body], [], False)
+            elif len(ps) == npos == 1:
+                add(None, None, None, ps[0], [f.body], [], False)
             return
-        if isinstance(f, ast.Name):
+        r = callable_target(prog, fi, f) if not isinstance(fi.node, ast.Lambda) or not isinstance(f, ast.Name) else None
+        if r is None and isinstance(f, ast.Name):
             g = fi
-            while g is not None and tgt is None:
-                tgt = prog.funcs.get(g.qn + ".<locals>." + f.id)
+            while g is not None and r is None:
+                t = prog.funcs.get(g.qn + ".<locals>." + f.id)
+                r = (t, {}) if t is not None else None
                 g = g.parent
-            if tgt is None and not isinstance(fi.node, ast.Lambda):
-                r = resolve_local(fi.node, f)
-                if r is not f:
-                    return callable_ctx(fi, r)
-        if tgt is not None:
-            ps = all_params(tgt)
-            if len(ps) == 2 and not any(c[0] is tgt for c in ctxs):
-                ctxs.append((tgt, ps[0], ps[1], list(tgt.node.body), []))
+        if r is None:
+            return
+        tgt, bound = r
+        if isinstance(tgt.node, ast.Lambda):
+            return callable_ctx(fi, tgt.node, npos)
+        ps = all_params(tgt)
+        if tgt.cls is not None and not is_static(tgt) and ps:
+            ps = ps[1:]
+        ps = [p for p in ps if p not in bound]
+        if ("ctx", tgt.qn) in done:
+            return
+        body = list(tgt.node.body)
+        if npos == 2 and len(ps) == 2:
+            done.add(("ctx", tgt.qn))
+            add(tgt, ps[0], ps[1], None, body, [], True)
+            region_calls(tgt, body, ps[0], ps[1], None)
+        elif npos == 1 and len(ps) == 1:
+            done.add(("ctx", tgt.qn))
+            k, v = _unpack_of(body, ps[0])
+            add(tgt, k, v, ps[0], body, [], True)
+            region_calls(tgt, body, k, v, ps[0])
 
     def region_calls(fi, roots, k, v, pair):
+        c = PairCtx(fi, k, v, pair, roots, [], True)
         for root in roots:
             for n in ast.walk(root):
-                if not isinstance(n, ast.Call):
+                if not isinstance(n, ast.Call) or n.keywords:
                     continue
-                if len(n.args) == 2 and not n.keywords and isinstance(n.args[0], ast.Name) and isinstance(n.args[1], ast.Name) and k is not None and n.args[0].id == k and n.args[1].id == v:
-                    callable_ctx(fi, n.func)
-                elif len(n.args) == 1 and isinstance(n.args[0], ast.Starred) and isinstance(n.args[0].value, ast.Name) and n.args[0].value.id == pair:
-                    callable_ctx(fi, n.func)
+                if len(n.args) == 2 and c.is_key(n.args[0]) and c.is_val(n.args[1]):
+                    callable_ctx(fi, n.func, 2)
+                elif len(n.args) == 1 and isinstance(n.args[0], ast.Starred) and c.is_pair(n.args[0].value):
+                    callable_ctx(fi, n.func, 2)
+                elif len(n.args) == 1 and c.is_pair(n.args[0]) and chain(n.func) not in _PAIR_WRAPPERS + ("len", "str", "repr"):
+                    callable_ctx(fi, n.func, 1)
 
-    def scan(fi):
+    def scan(fi, sources, depth):
+        if (fi.qn, tuple(sorted(sources))) in done or depth > 3:
+            return
+        done.add((fi.qn, tuple(sorted(sources))))
         for n in walk_no_nested(fi.node):
             target = it = None
-            roots = []
-            emit = []
-            base = []
+            roots, emit, base, stmts = [], [], [], False
             if isinstance(n, (ast.For, ast.AsyncFor)):
                 target, it, roots = n.target, n.iter, list(n.body)
-                emit = roots
+                emit, stmts = roots, True
             elif isinstance(n, (ast.ListComp, ast.SetComp, ast.GeneratorExp, ast.DictComp)):
                 for gi, g in enumerate(n.generators):
-                    if _is_pairs_source(fi, g.iter, attr):
+                    if _is_pairs_source(fi, g.iter, sources):
                         target, it = g.target, g.iter
-                        emit = [n.elt] if not isinstance(n, ast.DictComp) else [n.key, n.value]
+                        emit = [n.elt] if not isinstance(n, ast.DictComp) else [ast.Tuple(elts=[n.key, n.value], ctx=ast.Load())]
                         roots = emit + list(g.ifs) + [x for g2 in n.generators[gi + 1:] for x in [g2.iter] + list(g2.ifs)]
                         base = [(c, True) for g2 in n.generators[gi:] for c in g2.ifs]
                         break
-            elif isinstance(n, ast.Call) and (chain(n.func) or "").split(".")[-1] == "starmap" and len(n.args) == 2 and _is_pairs_source(fi, n.args[1], attr):
-                callable_ctx(fi, n.args[0])
+            elif isinstance(n, ast.Call) and not n.keywords and len(n.args) == 2 and (chain(n.func) or "").split(".")[-1] in ("starmap", "map") \
+                    and _is_pairs_source(fi, n.args[1], sources):
+                callable_ctx(fi, n.args[0], 2 if (chain(n.func) or "").split(".")[-1] == "starmap" else 1)
                 continue
-            if target is None or not _is_pairs_source(fi, it, attr):
+            elif isinstance(n, ast.Call):
+                # self / the pair list handed to another function of the module: its loops are scanned too
+                r = resolve_callee(prog, fi, n)
+                if r is not None and r[0].module is fi.module and not any(isinstance(a, ast.Starred) for a in n.args):
+                    callee, bm = r
+                    b = bind_call(n, callee, bm) or {}
+                    new = set()
+                    for p, a in b.items():
+                        if _is_pairs_source(fi, a, sources):
+                            new.add(p)
+                        elif isinstance(a, ast.Name) and (a.id + "." + attr) in sources:
+                            new.add(p + "." + attr)
+                    if bm and isinstance(n.func, ast.Attribute) and (chain(n.func.value) or "") + "." + attr in sources:
+                        ps = callee.node.args.posonlyargs + callee.node.args.args
+                        if ps:
+                            new.add(ps[0].arg + "." + attr)
+                    if new:
+                        scan(callee, frozenset(new), depth + 1)
+                continue
+            if target is None or not _is_pairs_source(fi, it, sources):
                 continue
             if isinstance(target, (ast.Tuple, ast.List)) and len(target.elts) == 2 and all(isinstance(x, ast.Name) for x in target.elts):
                 k, v = target.elts[0].id, target.elts[1].id
-                ctxs.append((fi, k, v, emit, base))
+                add(fi, k, v, None, emit, base, stmts)
                 region_calls(fi, roots, k, v, None)
             elif isinstance(target, ast.Name):
-                k = v = None
-                for root in roots:
-                    for s in ast.walk(root):
-                        if isinstance(s, ast.Assign) and len(s.targets) == 1 and isinstance(s.targets[0], (ast.Tuple, ast.List)) and len(s.targets[0].elts) == 2 \
-                                and all(isinstance(x, ast.Name) for x in s.targets[0].elts) and isinstance(s.value, ast.Name) and s.value.id == target.id:
-                            k, v = s.targets[0].elts[0].id, s.targets[0].elts[1].id
-                if k is not None:
-                    ctxs.append((fi, k, v, emit, base))
+                k, v = _unpack_of(roots, target.id)
+                add(fi, k, v, target.id, emit, base, stmts)
                 region_calls(fi, roots, k, v, target.id)
+        for q, f in list(prog.funcs.items()):
+            if f.parent is fi:
+                scan(f, sources, depth + 1)
 
-    scan(outer)
-    for q, f in list(prog.funcs.items()):
-        if f.parent is outer:
-            scan(f)
+    scan(outer, frozenset({"self." + attr}), 0)
     return ctxs
 
 
-def valueless_emissions(ctxinfo):
-    """For one pair context: [(unit node, statement node or None, [(atom, polarity)] conditions)] for every
-    rendering unit (statement, conditional-expression arm or comprehension element) that mentions the key
-    but not the value."""
-    scope, k, v, roots, base = ctxinfo
-    out = []
-    seen_units = set()
-    for root in roots:
-        par = _parents(root)
-        for n in ast.walk(root):
-            if not (isinstance(n, ast.Name) and n.id == k and isinstance(n.ctx, ast.Load)):
-                continue
-            # climb
-            unit = None
-            conds = list(base)
-            in_test = False
-            stmt = None
-            child, p = n, par.get(id(n))
-            while p is not None:
-                if isinstance(p, ast.IfExp):
-                    if child is p.test:
-                        in_test = True
-                    else:
-                        if unit is None:
-                            unit = child
-                        conds.append((p.test, child is p.body))
-                if isinstance(p, (ast.If, ast.While)) and child is p.test:
-                    in_test = True
-                if isinstance(p, ast.Assert):
-                    in_test = True
-                if isinstance(p, ast.comprehension) and child in p.ifs:
-                    in_test = True
-                if isinstance(p, (ast.ListComp, ast.SetComp, ast.GeneratorExp, ast.DictComp)):
-                    # inside a nested comprehension of the region: its filters hold for its element
-                    for g in p.generators:
-                        for c in g.ifs:
-                            if not any(x is child for x in ast.walk(c)):
-                                conds.append((c, True))
-                if isinstance(p, (ast.FunctionDef, ast.AsyncFunctionDef, ast.Lambda)):
-                    in_test = True  # a nested scope of the region: not this context
-                if isinstance(child, ast.stmt) and stmt is None:
-                    stmt = child
-                child, p = p, par.get(id(p))
-            if isinstance(child, ast.stmt) and stmt is None:
-                stmt = child
-            if in_test:
-                continue
-            if unit is None:
-                unit = stmt if stmt is not None else root
-            if id(unit) in seen_units:
-                continue
-            seen_units.add(id(unit))
-            if isinstance(unit, (ast.If, ast.For, ast.While, ast.Try, ast.With, ast.FunctionDef, ast.AsyncFunctionDef)):
-                continue
-            if any(isinstance(x, ast.Name) and x.id == v for x in ast.walk(unit)):
-                continue
-            if isinstance(unit, ast.Expr) and isinstance(unit.value, ast.Call) and is_log_call(unit.value):
-                continue
-            out.append((unit, stmt, conds))
-    return out
+_UNK = object()
+_STR_METHODS = {"strip", "lstrip", "rstrip", "lower", "upper", "startswith", "endswith", "isdigit", "isalnum", "isalpha", "isspace", "replace", "encode", "casefold", "title"}
 
 
-def none_atom_holds(conds, v):
-    """Do the conditions [(expr, polarity)] include `v is None`?"""
-    want = atom_key(ast.parse("%s is None" % v, mode="eval").body)
-    for e, pol in conds:
-        for a, p in _conjuncts(e, pol):
-            k2, p2 = atom_key(a)
-            if k2 == want[0] and (p2 == want[1]) == p:
-                return True
-    return False
+def _sample_value(e, ctx, s):
+    """Value of the pure expression e when the pair's value is the string s (key and everything else
+    unknown); _UNK when it does not follow."""
+    if isinstance(e, ast.Constant):
+        return e.value
+    if ctx.is_val(e):
+        return s
+    if isinstance(e, (ast.Tuple, ast.List, ast.Set)):
+        vals = [_sample_value(x, ctx, s) for x in e.elts]
+        if any(x is _UNK for x in vals):
+            return _UNK
+        return tuple(vals)
+    if isinstance(e, ast.Call) and isinstance(e.func, ast.Name) and e.func.id == "isinstance":
+        if len(e.args) != 2 or e.keywords:
+            return _UNK
+        names = [chain(x) for x in (e.args[1].elts if isinstance(e.args[1], ast.Tuple) else [e.args[1]])]
+        known = {"str": str, "bytes": bytes, "int": int, "float": float, "bool": bool, "list": list, "tuple": tuple, "dict": dict}
+        obj = _sample_value(e.args[0], ctx, s)
+        if obj is _UNK or not all(nm in known for nm in names):
+            return _UNK
+        return isinstance(obj, tuple(known[nm] for nm in names))
+    if isinstance(e, ast.Call) and not e.keywords and not any(isinstance(a, ast.Starred) for a in e.args):
+        args = [_sample_value(a, ctx, s) for a in e.args]
+        if any(a is _UNK for a in args):
+            return _UNK
+        try:
+            if isinstance(e.func, ast.Name) and e.func.id in ("len", "str", "bool", "repr") and len(args) == 1:
+                return {"len": len, "str": str, "bool": bool, "repr": repr}[e.func.id](args[0])
+            if isinstance(e.func, ast.Attribute) and e.func.attr in _STR_METHODS:
+                recv = _sample_value(e.func.value, ctx, s)
+                if isinstance(recv, str):
+                    return getattr(recv, e.func.attr)(*args)
+        except Exception:
+            return _UNK
+        return _UNK
+    if isinstance(e, ast.Call):
+        return _UNK
+    t = _sample_truth(e, ctx, s, values=False)
+    return _UNK if t is None else t
+
+
+def _sample_truth(e, ctx, s, values=True):
+    """Three-valued truth of e when the pair's value is the string s."""
+    if isinstance(e, ast.UnaryOp) and isinstance(e.op, ast.Not):
+        t = _sample_truth(e.operand, ctx, s)
+        return None if t is None else not t
+    if isinstance(e, ast.BoolOp):
+        ts = [_sample_truth(x, ctx, s) for x in e.values]
+        if isinstance(e.op, ast.And):
+            return False if any(t is False for t in ts) else (True if all(t is True for t in ts) else None)
+        return True if any(t is True for t in ts) else (False if all(t is False for t in ts) else None)
+    if isinstance(e, ast.Compare) and len(e.ops) == 1:
+        l, r = _sample_value(e.left, ctx, s), _sample_value(e.comparators[0], ctx, s)
+        op = e.ops[0]
+        if isinstance(op, (ast.Is, ast.IsNot)):
+            # identity is only decided against the singleton None
+            if l is _UNK or r is _UNK or not (l is None or r is None):
+                return None
+            res = l is None and r is None
+            return res if isinstance(op, ast.Is) else not res
+        if l is _UNK or r is _UNK:
+            return None
+        try:
+            if isinstance(op, ast.Eq):
+                return l == r
+            if isinstance(op, ast.NotEq):
+                return l != r
+            if isinstance(op, ast.In):
+                return l in r
+            if isinstance(op, ast.NotIn):
+                return l not in r
+            if isinstance(op, ast.Lt):
+                return l < r
+            if isinstance(op, ast.LtE):
+                return l <= r
+            if isinstance(op, ast.Gt):
+                return l > r
+            if isinstance(op, ast.GtE):
+                return l >= r
+        except Exception:
+            return None
+        return None
+    if isinstance(e, ast.Compare):
+        return None
+    if isinstance(e, ast.BinOp) and isinstance(e.op, ast.Mod) and isinstance(e.left, ast.Constant) and isinstance(e.left.value, str):
+        # a %-template with literal characters renders a non-empty string
+        import re as _re
+        return True if _re.sub(r"%(\([^)]*\))?[-#0 +]*\d*(\.\d+)?[sdrifxXeEgGcoa%]", "", e.left.value) else None
+    if isinstance(e, ast.JoinedStr):
+        return True if any(isinstance(x, ast.Constant) and x.value for x in e.values) else None
+    if not values:
+        return None
+    v = _sample_value(e, ctx, s)
+    if v is _UNK:
+        return None
+    try:
+        return bool(v)
+    except Exception:
+        return None
+
+
+def only_for_none(conds, ctx, samples=("", "x")):
+    """The conjunction of the conditions [(expr, polarity)] cannot hold when the pair's value is a string
+    (decided for the empty and for a non-empty sample string by three-valued evaluation: `v is None`,
+    `v is not None`, `v == None`, `not v`, `v == ""`, `len(v)`, `isinstance(v, str)`, and/or/not over them,
+    in any spelling): link-format attribute values are strings or None, so the conditions imply `v is None`."""
+    for s in samples:
+        if not any((lambda t: t is not None and t != pol)(_sample_truth(e, ctx, s)) for e, pol in conds):
+            return False
+    return True
+
+
+class _Subst(ast.NodeTransformer):
+    def __init__(self, bind):
+        self.bind = bind
+
+    def visit_Name(self, n):
+        if isinstance(n.ctx, ast.Load) and n.id in self.bind:
+            return self.bind[n.id]
+        return n
+
+
+class PairRendering:
+    """Abstract execution of the region of one PairCtx.  Every local of the region carries the set of the
+    pair components ('K', 'V') its value is computed from; plain bindings of pure expressions are
+    remembered so that a named condition is read as the expression it names.  The region is executed path
+    by path (if / else, early return / continue / break, match on constants, conditional expressions and
+    value-level and / or fork), so that every *emission* -- an expression statement, return, yield, store
+    to a non-local target or accumulation onto a name that is not a local of the region -- is seen together
+    with the branch outcomes under which it is reached and with the definitions of the locals that are
+    live there.  `emissions` lists (node, components, conditions) of those that mention the key."""
+
+    CAP = 48
+    MAXSTATES = 96
+
+    def __init__(self, ctx):
+        self.ctx = ctx
+        self.emissions = []
+        self._seen = set()
+        if ctx.stmts:
+            self.run(list(ctx.roots), [({}, {}, tuple(ctx.base))])
+        else:
+            for root in ctx.roots:
+                self.emit(root, root, ({}, {}, tuple(ctx.base)))
+
+    # -- expressions
+    def subst(self, e, st):
+        bind = st[1]
+        if not bind or not any(isinstance(n, ast.Name) and n.id in bind for n in ast.walk(e)):
+            return e
+        import copy
+        out = e
+        for _ in range(4):
+            out = _Subst(bind).visit(copy.deepcopy(out))
+            if not any(isinstance(n, ast.Name) and isinstance(n.ctx, ast.Load) and n.id in bind for n in ast.walk(out)):
+                break
+        return ast.fix_missing_locations(out)
+
+    def _product(self, lists):
+        out = [(frozenset(), ())]
+        for alts in lists:
+            if len(alts) == 1:
+                t, c = alts[0]
+                out = [(o | t, oc + c) for o, oc in out]
+            elif len(out) * len(alts) > self.CAP:
+                t = frozenset().union(*[a for a, _ in alts])
+                out = [(o | t, oc) for o, oc in out]
+            else:
+                out = [(o | t, oc + c) for o, oc in out for t, c in alts]
+        return out
+
+    def ealts(self, e, st):
+        """[(components the value is computed from, conditions of this alternative)]"""
+        ctx, env = self.ctx, st[0]
+        if e is None:
+            return [(frozenset(), ())]
+        if ctx.is_key(e):
+            return [(frozenset("K"), ())]
+        if ctx.is_val(e):
+            return [(frozenset("V"), ())]
+        if ctx.is_pair(e):
+            return [(frozenset("KV"), ())]
+        if isinstance(e, ast.Name):
+            return [(env.get(e.id, frozenset()), ())]
+        if isinstance(e, ast.Constant):
+            return [(frozenset(), ())]
+        if isinstance(e, ast.Lambda):
+            return [(frozenset(), ())]
+        if isinstance(e, ast.IfExp):
+            t = self.subst(e.test, st)
+            return [(a, ((t, True),) + c) for a, c in self.ealts(e.body, st)] + [(a, ((t, False),) + c) for a, c in self.ealts(e.orelse, st)]
+        if isinstance(e, ast.BoolOp) and len(e.values) >= 2:
+            # value-level `a and b` / `a or b`: the result is the first operand that decides, else the last
+            out, pre = [], ()
+            for i, x in enumerate(e.values):
+                xt = self.subst(x, st)
+                last = i == len(e.values) - 1
+                for a, c in self.ealts(x, st):
+                    out.append((a, pre + c + (() if last else ((xt, isinstance(e.op, ast.Or)),))))
+                pre = pre + ((xt, isinstance(e.op, ast.And)),)
+            return out[: self.CAP] if len(out) <= self.CAP else [(frozenset().union(*[a for a, _ in out]), ())]
+        if isinstance(e, (ast.ListComp, ast.SetComp, ast.GeneratorExp, ast.DictComp)):
+            gt = frozenset()
+            for g in e.generators:
+                for a, _ in self.ealts(g.iter, st):
+                    gt |= a
+            filt = tuple((self.subst(c, st), True) for g in e.generators for c in g.ifs)
+            elts = [e.elt] if not isinstance(e, ast.DictComp) else [e.key, e.value]
+            return [(a | gt, filt + c) for a, c in self._product([self.ealts(x, st) for x in elts])]
+        kids = []
+        for ch in ast.iter_child_nodes(e):
+            if isinstance(ch, ast.keyword):
+                ch = ch.value
+            if isinstance(ch, ast.expr):
+                kids.append(self.ealts(ch, st))
+        return self._product(kids)
+
+    def emit(self, node, e, st):
+        for comps, conds in self.ealts(e, st):
+            if "K" not in comps:
+                continue
+            sig = (id(node), comps, tuple((dump(c), p) for c, p in st[2] + conds))
+            if sig in self._seen:
+                continue
+            self._seen.add(sig)
+            self.emissions.append((node, comps, list(st[2] + conds)))
+
+    # -- statements
+    def _assign(self, name, value, states, aug=False):
+        out = []
+        for st in states:
+            env, bind, conds = st
+            if aug and name not in env:
+                self.emit(value, value, st)  # accumulation onto a name the region did not define
+                out.append(st)
+                continue
+            for comps, c in self.ealts(value, st):
+                e2, b2 = dict(env), dict(bind)
+                e2[name] = (env.get(name, frozenset()) | comps) if aug else comps
+                b2.pop(name, None)
+                for k_ in [k_ for k_, v_ in b2.items() if any(isinstance(n, ast.Name) and n.id == name for n in ast.walk(v_))]:
+                    b2.pop(k_)
+                if not aug and pure_value(value) and not any(isinstance(n, ast.Name) and n.id == name for n in ast.walk(value)):
+                    b2[name] = self.subst(value, st)
+                out.append((e2, b2, conds + c))
+        return out
+
+    def _targets_names(self, t):
+        if isinstance(t, ast.Name):
+            return [t.id]
+        if isinstance(t, (ast.Tuple, ast.List)):
+            return [x for el in t.elts for x in (self._targets_names(el) or [None])]
+        if isinstance(t, ast.Starred):
+            return self._targets_names(t.value)
+        return [None]
+
+    def run(self, stmts, states):
+        """-> states that fall off the end of the statement list"""
+        for s in stmts:
+            if not states:
+                break
+            if len(states) > self.MAXSTATES:
+                raise AnalysisError("Link.__str__: more than %d paths through the rendering of one attribute pair" % self.MAXSTATES)
+            states = self.step(s, states)
+        return states
+
+    def step(self, s, states):
+        ctx = self.ctx
+        if isinstance(s, (ast.FunctionDef, ast.AsyncFunctionDef, ast.ClassDef, ast.Pass, ast.Global, ast.Nonlocal, ast.Assert, ast.Import, ast.ImportFrom, ast.Delete)):
+            return states
+        if isinstance(s, (ast.Continue, ast.Break)):
+            return []
+        if isinstance(s, ast.Raise):
+            return []
+        if isinstance(s, ast.Return):
+            if s.value is not None:
+                for st in states:
+                    self.emit(s, s.value, st)
+            return []
+        if isinstance(s, ast.Expr):
+            if isinstance(s.value, ast.Call) and is_log_call(s.value):
+                return states
+            for st in states:
+                self.emit(s, s.value, st)
+            return states
+        if isinstance(s, ast.Assign) or (isinstance(s, ast.AnnAssign) and s.value is not None):
+            targets = s.targets if isinstance(s, ast.Assign) else [s.target]
+            names = [n for t in targets for n in self._targets_names(t)]
+            if all(n is not None for n in names):
+                self_ref = [n for n in names if any(isinstance(x, ast.Name) and x.id == n and isinstance(x.ctx, ast.Load) for x in ast.walk(s.value))]
+                out = []
+                for st in states:
+                    if any(n not in st[0] for n in self_ref):
+                        self.emit(s, s.value, st)  # `acc = acc + piece` on a name the region did not define
+                        out.append(st)
+                        continue
+                    sts = [st]
+                    for n in names:
+                        sts = self._assign(n, s.value, sts)
+                    if len(names) > 1:
+                        sts = [(e_, {k_: v_ for k_, v_ in b_.items() if k_ not in names}, c_) for e_, b_, c_ in sts]
+                    out += sts
+                return out
+            for st in states:
+                self.emit(s, ast.Tuple(elts=[t for t in targets if not isinstance(t, ast.Name)] + [s.value], ctx=ast.Load()), st)
+            return states
+        if isinstance(s, ast.AugAssign):
+            if isinstance(s.target, ast.Name):
+                return self._assign(s.target.id, s.value, states, aug=True)
+            for st in states:
+                self.emit(s, ast.Tuple(elts=[s.target, s.value], ctx=ast.Load()), st)
+            return states
+        if isinstance(s, ast.If):
+            out = []
+            for st in states:
+                t = self.subst(s.test, st)
+                out += self.run(s.body, [(st[0], st[1], st[2] + ((t, True),))])
+                out += self.run(s.orelse, [(st[0], st[1], st[2] + ((t, False),))])
+            return out
+        if isinstance(s, (ast.For, ast.AsyncFor, ast.While)):
+            out = list(states)
+            for st in states:
+                inner = [st]
+                if not isinstance(s, ast.While):
+                    comps = frozenset().union(*[a for a, _ in self.ealts(s.iter, st)])
+                    e2 = dict(st[0])
+                    for n in self._targets_names(s.target):
+                        if n is not None:
+                            e2[n] = comps
+                    inner = [(e2, {k_: v_ for k_, v_ in st[1].items() if k_ not in self._targets_names(s.target)}, st[2])]
+                else:
+                    inner = [(st[0], st[1], st[2] + ((self.subst(s.test, st), True),))]
+                # a local accumulated in the loop body keeps what it held before: one iteration is representative
+                out += self.run(s.body, inner)
+            return self.run(s.orelse, out) if s.orelse else out
+        if isinstance(s, (ast.With, ast.AsyncWith)):
+            return self.run(s.body, states)
+        if isinstance(s, ast.Try) or s.__class__.__name__ == "TryStar":
+            out = self.run(s.body, states)
+            out = self.run(s.orelse, out) if s.orelse else out
+            for h in s.handlers:
+                out += self.run(h.body, list(states))
+            return self.run(s.finalbody, out) if s.finalbody else out
+        if isinstance(s, ast.Match):
+            out = []
+            for st in states:
+                subj = self.subst(s.subject, st)
+                neg = ()
+                for case in s.cases:
+                    tests = self._pattern_tests(subj, case.pattern)
+                    cond = st[2] + neg
+                    if tests is not None and tests != "any":
+                        t = tests[0] if len(tests) == 1 else ast.BoolOp(op=ast.Or(), values=tests)
+                        cond = cond + ((t, True),)
+                        if case.guard is None:
+                            neg = neg + ((t, False),)
+                    if case.guard is not None:
+                        cond = cond + ((self.subst(case.guard, st), True),)
+                    out += self.run(case.body, [(st[0], st[1], cond)])
+                    if tests == "any" and case.guard is None:
+                        break
+                else:
+                    out.append((st[0], st[1], st[2] + neg))
+            return out
+        # anything else: an emission of whatever it mentions
+        for st in states:
+            for n in ast.iter_child_nodes(s):
+                if isinstance(n, ast.expr):
+                    self.emit(s, n, st)
+        return states
+
+    @staticmethod
+    def _pattern_tests(subj, p):
+        """[test expressions] whose disjunction is the pattern's match condition; 'any' for a wildcard /
+        capture; None when the pattern is not understood (no condition follows)."""
+        if isinstance(p, ast.MatchSingleton):
+            return [ast.Compare(left=subj, ops=[ast.Is()], comparators=[ast.Constant(value=p.value)])]
+        if isinstance(p, ast.MatchValue):
+            return [ast.Compare(left=subj, ops=[ast.Eq()], comparators=[p.value])]
+        if isinstance(p, ast.MatchAs) and p.pattern is None:
+            return "any"
+        if isinstance(p, ast.MatchOr):
+            out = []
+            for q in p.patterns:
+                t = PairRendering._pattern_tests(subj, q)
+                if t is None or t == "any":
+                    return t
+                out += t
+            return out
+        return None
+
+
+def valueless_emissions(ctx):
+    """[(node, conditions)]: the emissions of the region that are computed from the key but not from the
+    value (the value-less form `key` of a link attribute)."""
+    return [(node, conds) for node, comps, conds in PairRendering(ctx).emissions if "V" not in comps]
 
 
 # ---------------------------------------------------------------------------
